@@ -118,3 +118,42 @@ def serializer_reuse(ai: int, k: int, strict: bool, bi: int, omit: bool) -> bool
         f = serializer.HTMLSerializer(omit_optional_tags=omit)
         want = f.render(walker(tb))
         return got == want and got_err == list(f.errors)
+
+
+# ---------------------------------------------------------------- re-entrant use of the module-level API
+class ReentrantSrc(ChunkSrc):
+    """a text source whose second read() parses ANOTHER document through the module-level html5lib.parse / parseFragment
+    before it returns (the sequential form of 'another parse runs while this one is blocked in read()')"""
+    def __init__(self, chunks, other, other_container, kind):
+        ChunkSrc.__init__(self, chunks)
+        self.other, self.other_container, self.kind, self.inner, self.n = other, other_container, kind, None, 0
+    def read(self, n=-1):
+        if n != 0:
+            self.n += 1
+            if self.n == 2:
+                if self.other_container is None:
+                    self.inner = html5lib.parse(self.other, treebuilder=self.kind)
+                else:
+                    self.inner = html5lib.parseFragment(self.other, container=self.other_container, treebuilder=self.kind)
+        return ChunkSrc.read(self, n)
+
+def reentrant(ai: int, bi: int, dom: bool) -> bool:
+    """
+    pre: 0 <= ai < NB and 0 <= bi < NB
+    post: _
+    """
+    a_text, a_cont = B_DOCS[pick(NB, ai)]
+    b_text, b_cont = B_DOCS[pick(NB, bi)]
+    dom = bool(dom)
+    with untraced():
+        kind = "dom" if dom else "etree"
+        norm = norm_dom if dom else norm_et
+        def run(text_chunks_src, cont):
+            if cont is None:
+                return html5lib.parse(text_chunks_src, treebuilder=kind)
+            return html5lib.parseFragment(text_chunks_src, container=cont, treebuilder=kind)
+        want_a = norm(run(ChunkSrc([a_text[:1], a_text[1:]]), a_cont))
+        want_b = norm(run(ChunkSrc([b_text]), b_cont))
+        src = ReentrantSrc([a_text[:1], a_text[1:]], b_text, b_cont, kind)
+        got_a = norm(run(src, a_cont))
+        return got_a == want_a and src.inner is not None and norm(src.inner) == want_b
